@@ -101,6 +101,7 @@ type Plan struct {
 	Codec    string         `json:"codec"`
 	Header   string         `json:"header"`
 	ByName   bool           `json:"byname,omitempty"`
+	Plain    bool           `json:"plain,omitempty"` // Listen(network,address,codec) / Dial(network,address,codec) instead of Options
 	Servers  []ServerCfg    `json:"servers"`
 	Conns    []ConnCfg      `json:"conns"`
 	Clients  []ClientPlan   `json:"clients"`
@@ -234,6 +235,7 @@ type World struct {
 	TS       *tState
 	CS       *cState
 	CL       *closeState
+	Points   []string // enumerated fault points that actually fired in this run (fault-enumeration checks)
 	Ref      *World // C12: the same workload under the reference configuration
 	Puppets  []*puppetConn
 	PuppetFlags map[uint64]uint32
@@ -348,7 +350,12 @@ func (w *World) startServer(i int) {
 	gen := &listenState{}
 	w.listenGen[i] = gen
 	simrt.Go(fmt.Sprintf("harness.listen.%d", i), func() {
-		err := s.ListenWithOptions(addrOf(i), opts)
+		var err error
+		if w.P.Plain {
+			err = s.Listen("sim", addrOf(i), w.P.Codec)
+		} else {
+			err = s.ListenWithOptions(addrOf(i), opts)
+		}
 		gen.returned = true
 		if err != nil {
 			gen.err = err.Error()
